@@ -6,6 +6,7 @@ of a re-execution were already emitted by the path that shares the prefix and ar
 suppressed, so each obligation appears once per distinct path prefix.
 """
 import ast
+import re as _re_mod
 import itertools
 
 import z3
@@ -246,6 +247,10 @@ class Exec:
             except PathEnd:
                 continue
         self.ctx.paths += npaths
+        if not outcomes and self.emitting:
+            # vacuity guard: every path died as infeasible before a return / raise - contradictory hypotheses (contract or models)
+            raise Unsupported(f"no path of {info.qualname} reaches a return or a raise: every path is infeasible under the contract "
+                              f"and the models (contradictory hypotheses)")
         for key in (contract.asserts or {}):
             if not self.ctx.__dict__.get("anchor_hits", {}).get(key):
                 raise Unsupported(f"ghost anchor {key!r} of the contract was never reached: the statement it names no longer exists "
@@ -2240,6 +2245,15 @@ class Exec:
                     if gname not in cenv2:
                         from .objmodels import opt_opaque
                         cenv2[gname] = opt_opaque("witness_" + gname)
+        # ghost names of the callee's own proof that have no meaning for the caller (ghost arrays of its loops, spec functions it
+        # defines): the clauses of its postcondition that mention them are not assumed (assuming less is sound)
+        callee_ghost = set()
+        for gls in list((c.asserts or {}).values()) + [getattr(lp, "ghost_init", None) or [] for lp in (c.loops or {}).values()]:
+            for g_ in gls:
+                for kw in ("let ", "defun ", "defrec ", "define "):
+                    if g_.startswith(kw):
+                        callee_ghost.add(_re_mod.split(r"[\s=(:]", g_[len(kw):].strip(), 1)[0])
+        callee_ghost -= set(cenv2)
         saved_old = self.st.old
         self.st.old = old
         # ghost-static facts the callee proves about its result (ownership, dtype) become the ghost state of the value handed back
@@ -2256,6 +2270,8 @@ class Exec:
             if (was_feasible and self.emitting) else None
         try:
             for cl in c.ensures:
+                if callee_ghost and any(isinstance(x, ast.Name) and x.id in callee_ghost for x in ast.walk(ast.parse(cl, mode="eval"))):
+                    continue
                 try:
                     self.assume(self.eval_clause(cl, cenv2, result))
                 except PathEnd:
